@@ -69,6 +69,9 @@ func c12Sig(c *c12Case, clause string, drawUsed bool) string {
 	if c.RTTs > 0 {
 		return fmt.Sprintf("%s/%s/%s/%s/%sclean-%d-rtt/draw=%s", c.Part, clause, c.Profile, c12PathOf(c.Path).Name, pre, c.RTTs, d)
 	}
+	if c.Burst > 0 {
+		return fmt.Sprintf("%s/%s/%s/%s/prefix=%s/burst=%dpkt,send-gap=%dns,ack-gap=%dns,in-flight-on-send-excludes-packet=%v/seq=%s", c.Part, clause, c.Profile, c12PathOf(c.Path).Name, c12SeqNames(c.Prefix), c.Burst, c.SendGapNs, c.AckGapNs, c.PriorOnSend, c12SeqNames(c.Seq))
+	}
 	if c.Raise > 0 {
 		return fmt.Sprintf("%s/%s/%s/%s/prefix=%s/window=%s,recovery=%q,raise=+%d/seq=%s", c.Part, clause, c.Profile, c12PathOf(c.Path).Name, c12SeqNames(c.Prefix), c.ForceWin, c.ForceRec, c.Raise, c12SeqNames(c.Seq))
 	}
@@ -412,6 +415,131 @@ func c12RaiseStates(a *c12Agg, item *int64) {
 	})
 }
 
+// c12Spacing: time granularity of sends and ack events (see c12Sim.spaced). After a history that
+// left nothing in flight (cold start, a request/response exchange, an application-limited pause, an
+// idle period: the states in which the next send starts a new sampling epoch) the application sends
+// a burst of n packets whose send times are g nanoseconds apart and whose acknowledgements arrive
+// one by one h nanoseconds apart, then sends greedily for two round trips; g and h over the
+// boundary values of the nanosecond / microsecond / millisecond units a time.Duration can be
+// truncated to: 0 (equal timestamps), 1 ns, inside the first microsecond, 999/1000/1001 ns, just
+// below 2 us. Every other part feeds the sender timestamps that are equal or >= 1 us apart.
+//
+// Second dimension, the meaning of the bytesInFlight argument of OnPacketSent: "including the packet"
+// (what the pinned quic-go passes, and every other part) or "before the packet" (the convention of
+// the implementation this sender was ported from, and the only one under which the branches the
+// sender and its sampler take on a send with NOTHING in flight - the start of a sampling epoch: the
+// send that ends quiescence becomes the reference point of the send-rate sample of the next packets
+// - are reached at all; the argument is the caller's to define, the property quantifies over what
+// QUIC can produce, and both are monotone, consistent accounts of the same trace). Under the first
+// the send-rate interval of a packet reaches back to the send time of a packet acknowledged before
+// it was sent (>= 1 RTT); under the second, after quiescence, to the previous send of the burst.
+//
+// Judged
+// by the per-event oracle of every other part (no panic, window, pacing floor, bookkeeping,
+// liveness). Added after the independently seeded change C12-13 (BandwidthFromDelta computed from
+// delta.Microseconds(): a send-rate sample over two sends less than 1 us apart divided by zero).
+var c12SpacingGapsQuick = []int64{0, 1, 300, 500, 999, 1000, 1001, 1999}
+var c12SpacingGapsThorough = []int64{0, 1, 2, 300, 500, 998, 999, 1000, 1001, 1002, 1500, 1999, 2000, 2001, 999999, 1000001}
+var c12SpacingPathsQuick = []int{0, 7}       // 20 ms and 500 us round trip (2 and 49 datagrams of BDP: short traces)
+var c12SpacingPathsThorough = []int{0, 1, 7} // and 50 ms with 488 datagrams of BDP
+var c12SpacingBurstsQuick = []int{2, 3}
+var c12SpacingBurstsThorough = []int{2, 3, 4}
+
+func c12SpacingAlphabet(thorough bool) (gaps []int64, bursts, paths []int) {
+	if thorough {
+		return c12SpacingGapsThorough, c12SpacingBurstsThorough, c12SpacingPathsThorough
+	}
+	return c12SpacingGapsQuick, c12SpacingBurstsQuick, c12SpacingPathsQuick
+}
+
+var c12SpacingPrefixes = [][]int{{}, {c12NEv}, {c12EvClean12, c12EvApp}, {c12EvClean12, c12EvIdle}}
+
+// c12SpacingCases calls f with every case of the part in canonical order (simplest first).
+func c12SpacingCases(thorough bool, f func(c *c12Case) bool) {
+	gaps, bursts, paths := c12SpacingAlphabet(thorough)
+	for _, pre := range c12SpacingPrefixes {
+		for _, n := range bursts {
+			for _, g := range gaps {
+				for _, h := range gaps {
+					for _, prof := range c12Profiles {
+						for _, pi := range paths {
+							for _, prior := range []bool{false, true} {
+								c := c12Case{Part: "sub-microsecond-spacing", Profile: string(prof), Path: pi, MaxPkts: c12RealMaxPkts, Prefix: pre, Seq: []int{c12EvClean1, c12EvClean1}, Draw: c12Draws[0], Burst: n, SendGapNs: g, AckGapNs: h, PriorOnSend: prior}
+								if !f(&c) {
+									return
+								}
+							}
+						}
+					}
+				}
+			}
+		}
+	}
+}
+
+func c12Spacing(a *c12Agg, item *int64) {
+	sh := a.sh
+	env := sh.Env()
+	p := sh.Part("sub-microsecond-spacing", "enum")
+	var pn, names []string
+	for _, pre := range c12SpacingPrefixes {
+		pn = append(pn, c12SeqNames(pre))
+	}
+	gaps, bursts, paths := c12SpacingAlphabet(env.Thorough())
+	for _, pi := range paths {
+		names = append(names, c12PathOf(pi).Name)
+	}
+	p.Alphabet = map[string]any{"profiles": c12Profiles, "paths": names, "before_the_burst": pn, "packets_in_the_burst": bursts,
+		"nanoseconds_between_two_sends_of_the_burst": gaps, "nanoseconds_between_two_ack_events": gaps,
+		"bytes_in_flight_reported_on_every_send_of_the_trace": []string{"including the packet (quic-go)", "before the packet (0 on the send that ends quiescence)"},
+		"burst": "the application has n packets: sent g ns apart as window and pacer admit, then nothing until all are acknowledged; acknowledged one packet per event, h ns apart, the first one path RTT after the first send",
+		"then":  "2 RTT clean (greedy sender), oracle after every congestion event"}
+	p.Note("half of the traces report the bytes in flight BEFORE the packet on every send (0 on the send that ends quiescence), which the pinned quic-go does not do (it includes the packet): only then does the sampler take a send with nothing in flight as the start of a sampling epoch, so that the send-rate interval of the next packet is the spacing of the burst")
+	c12SpacingCases(env.Thorough(), func(c *c12Case) bool {
+		*item++
+		if !env.Mine(*item) {
+			return true
+		}
+		if *item&63 == 0 && env.Expired() {
+			p.Exhaustive = false
+			p.Note("deadline reached")
+			return false
+		}
+		r := c12Run(c)
+		a.observe(p, c, &r)
+		if r.sim != nil {
+			p.Class("spacing", c12SeqNames(c.Prefix), c.Burst, r.sim.spacedSent, c.SendGapNs, c.AckGapNs, c.PriorOnSend, r.clause)
+			p.Count("packets_sent_in_spaced_bursts", r.sim.spacedSent)
+		}
+		if p.Evaluations%199 == 1 {
+			p.Sample(*c)
+		}
+		if r.infra != "" {
+			sh.InfraError("%s: %s", c12Sig(c, "infra", r.drawUsed), r.infra)
+			return false
+		}
+		if r.clause != "" {
+			key := p.Name + "|" + r.clause
+			if a.reported[key] {
+				p.Count("further_violating_traces_not_listed", 1)
+				return true
+			}
+			a.reported[key] = true
+			// every shard reports the first case in canonical order that violates this clause
+			mc, mr := *c, r
+			c12SpacingCases(env.Thorough(), func(c2 *c12Case) bool {
+				if r2 := c12Run(c2); r2.clause == r.clause {
+					mc, mr = *c2, r2
+					return false
+				}
+				return true
+			})
+			sh.Violate(p.Name, c12Sig(&mc, mr.clause, mr.drawUsed), mr.detail, &mc)
+		}
+		return true
+	})
+}
+
 func c12Spaces(thorough bool) []*c12Space {
 	sps := c12SpacesOf(thorough)
 	// development aid: override depth / all-draws depth of the main space
@@ -453,6 +581,7 @@ func c12Enumerate(sh *evidence.Shard) {
 	a := &c12Agg{sh: sh, reported: map[string]bool{}}
 	var item int64
 	if infra := c12Owned(func() {
+		c12Spacing(a, &item) // a few thousand short traces
 		c12LossFree(a, &item)
 		c12RaiseStates(a, &item)
 		// cheap directed spaces first, the big one last (it is the one a deadline may cut)
